@@ -161,6 +161,10 @@ def fam_setliteral(rng):
 
 def fam_walrus(rng):
     out = []
+    # the value is itself a comparison / arithmetic / boolean expression and the test compares the name: inlining must not re-associate
+    for rhs, op in [("a < b", "=="), ("a == b", "!="), ("a + b", "=="), ("a or b", "is not"), ("not a", "=="), ("a if b else 0", "==")]:
+        out.append("def f(a, b, expected):\n    ok = " + rhs + "\n    if ok " + op + " expected:\n        print('same')\n    else:\n        print('other')\n"
+                   + "for args in [(1, 2, True), (3, 2, False), (1, 2, 2), (2, 2, 2), (0, 0, 0), (0, 5, 5), (1, 1, True)]:\n    f(*args)   # must\n")
     for _ in range(25):
         v = rng.choice(["noisy(1)", "noisy(0)", "[]", "'x'", "None"])
         body = rng.choice(["print('yes', val)", "print('yes')\n    val = 5\n    print(val)"])
@@ -233,6 +237,11 @@ def fam_misc(rng):
                    + rng.choice(["", "q = open(p)\nz = q\ny = z\nprint(y.readline())\nprint(q.readline())\nprint(z.read())\n"]))
     for _ in range(10):
         out.append("import threading\nlock = threading.Lock()\nwith lock:\n    print('in', lock.locked())\nprint('out', lock.locked())\nwith threading.RLock():\n    print('r')\n")
+        # the name the codemod picks for the new lock object must be free everywhere it is put: module level, functions, methods
+        kind = rng.choice(["Lock", "RLock", "Condition", "Semaphore"])
+        nm = {"Lock": "lock", "RLock": "rlock", "Condition": "condition", "Semaphore": "semaphore"}[kind]
+        out.append(f"import threading\n\n\nclass Registry:\n    def register(self, key, {nm}):\n        with threading.{kind}():\n            self.key = key\n        return {nm}\n\n\nprint(Registry().register('k', 'mine'))   # must\n")
+        out.append(f"import threading\n\n\ndef run({nm}):\n    with threading.{kind}():\n        pass\n    return {nm}\n\n\nprint(run('mine'))   # must\n")
     for _ in range(8):
         out.append("price = 1\ndef f():\n    global price\n    price = 2\n    print(price)\nf()\nprint(price)\nglobal unused_global\nprint('ok')\n")
     return out
@@ -286,8 +295,8 @@ def witness(ctx, cid, src, out, in_def=False):
     body = lambda code: code.replace("    pass\n", "    print('T')\n" + ("    else:\n        print('F')\n" if in_def else "else:\n    print('F')\n"))
     root = common.tmpdir("c08w")
     try:
-        for _ in range(8):
-            vals = {n: rng.choice(["0", "1", "2", "True", "False", "''", "'a'", "[]", "[1]"]) for n in ("a", "b", "c", "flag", "xy", "d0")}
+        for _ in range(30):
+            vals = {n: rng.choice(["0", "1", "True", "False", "0", "1", "True", "False", "2", "''", "'a'", "[]", "[1]"]) for n in ("a", "b", "c", "flag", "xy", "d0")}
             pre = (f"class _X: y = {vals['xy']}\nx = _X()\nd = [{vals['d0']}]\na = {vals['a']}\nb = {vals['b']}\nc = {vals['c']}\nflag = {vals['flag']}\n"
                    f"s = {rng.choice(['\'abc\'', '\'bcd\'', '\'xyz\''])}\nt = {rng.choice(['\'abc\'', '\'cab\''])}\n")
             post = "try:\n    f(a, b, c, flag, x, d, s, t)\nexcept Exception as e:\n    print('EXC', type(e).__name__)\n" if in_def else ""
